@@ -110,6 +110,10 @@ def configs(tier):
             ('imap', [im], 2, dict(A, next=True), pool),
             ('imap_unordered', [imu], 2, dict(A, next=True), pool),
             ('map+apply', [mp, ap], 2, dict(A, die=(-9,)), pool),
+            ('apply+close', [ap, ap2], 2,
+             dict(A, die=(-9,), die_idle=False, close=True), pool),
+            ('apply+close/1proc', [ap2], 1,
+             dict(A, die=(-9,), die_idle=False, close=True), pool),
             ('map/chunks-of-2', [mp2], 2, dict(A, die=(-9,)), pool),
             ('map/3-chunks-of-2', [mp3], 2,
              dict(A, die=(-9,), die_idle=False, max_adv=2), pool),
